@@ -58,3 +58,67 @@ func VC07(kind, p int) {
 		vAssert("residual", vEqModR(cpu.States, k))
 	}
 }
+
+// Relational form: (accept; handler; return; X) ends like (X) alone, for the
+// instruction X at the boundary, with every hidden CPU field arbitrary but
+// equal in both runs.  Catches latent state lost or created by an acceptance
+// that the identity lemma (which compares with the boundary state) cannot see.
+// kind: 0 NMI, 1 IM1, 2 IM2
+func VC07Rel(kind, tbl, op int) {
+	var s States
+	vHavoc(&s, "s")
+	var it *Interrupt
+	switch kind {
+	case 0:
+		s.IFF2 = s.IFF1
+		it = NMIInterrupt()
+	case 1:
+		s.IFF1, s.IFF2, s.IM = true, true, 1
+		it = IM1Interrupt()
+	default:
+		s.IFF1, s.IFF2, s.IM = true, true, 2
+		it = IM2Interrupt(vU8("vector"))
+	}
+	busA := vNewBus("bus")
+	vPlace(busA, s.PC, tbl, op)
+	busB := busA.Fork("busB")
+	var a, b CPU
+	vHavocFields(&a, "h", vPublicCPU)
+	b = a
+	a.States, b.States = s, s
+	a.Memory, a.IO = busA, busA
+	b.Memory, b.IO = busB, busB
+	a.Interrupt = it
+	a.Step() // acceptance
+	if a.Interrupt != nil {
+		vStop("acceptance delayed (allowed right after EI); covered by C06")
+	}
+	h := a.PC
+	if kind == 0 {
+		vAssume(vAnd(busA.Peek(h) == 0xed, busA.Peek(h+1) == 0x45))
+		a.Step()
+	} else {
+		vAssume(vAnd(busA.Peek(h) == 0xfb, vAnd(busA.Peek(h+1) == 0xed, busA.Peek(h+2) == 0x4d)))
+		a.Step()
+		a.Step()
+	}
+	vAssert("resumes-at-boundary", a.PC == s.PC)
+	// X must still be intact after the two stack writes
+	vAssume(vAnd(vAnd(busA.Peek(s.PC) == busB.Peek(s.PC), busA.Peek(s.PC+1) == busB.Peek(s.PC+1)),
+		vAnd(busA.Peek(s.PC+2) == busB.Peek(s.PC+2), busA.Peek(s.PC+3) == busB.Peek(s.PC+3))))
+	busA.ResetTrace()
+	a.Step() // X after the interrupt
+	b.Step() // X alone
+	// programs that inspect the stack hole are outside the claim
+	for i := 0; i < busB.Len(); i++ {
+		if busB.Kind(i) == 0 {
+			vAssume(vAnd(busB.Addr(i) != s.SP-1, busB.Addr(i) != s.SP-2))
+		}
+	}
+	vAssert("state", vEqModR(a.States, b.States))
+	vAssert("HALT", a.HALT == b.HALT)
+	vAssert("trace", vTraceSeqEq(busA, busB))
+	probe := vU16("probe")
+	vAssume(vAnd(probe != s.SP-1, probe != s.SP-2))
+	vAssert("mem", busA.Peek(probe) == busB.Peek(probe))
+}
